@@ -258,7 +258,7 @@ def r16_2(ctx, N) -> None:
         for t in n.info.get("targets", []) for x in ast.walk(t))]
     scan_tests = [n for n in main if n.kind == "branch" and isinstance(n.ast, ast.Compare) and len(n.ast.ops) == 1
                   and isinstance(n.ast.ops[0], (ast.Eq, ast.NotEq)) and f".{N.key}" in norm(n.ast)
-                  and any(k == "loop" for (k, _a) in n.regions)]
+                  and n.in_loop()]
     no_target = [n for n in main if n.kind == "handler" and "AttributeError" in norm(n.info.get("type"))]
 
     def scan_exit(t) -> str:
